@@ -1,3 +1,4 @@
+import copy
 from pathlib import Path
 from typing import Union, Optional
 import os
@@ -309,9 +310,11 @@ class StateManager:
 
         if index is None:
             if flat:
-                return np.concatenate(self._history[key])
+                out = np.concatenate(self._history[key])
             else:
-                return np.array(self._history[key])
+                out = np.array(self._history[key])
+            # concatenating object arrays copies references only
+            return copy.deepcopy(out) if out.dtype.hasobject else out
         else:
             if index >= len(self._history[key]) or index < 0:
                 raise IndexError(f"Index {index} out of range for history key '{key}'")
@@ -679,7 +682,10 @@ class StateManager:
         if value is None:
             return None
         if isinstance(value, np.ndarray):
-            return value.copy()
+            # an object array holds references: copy what it refers to as well
+            return copy.deepcopy(value) if value.dtype.hasobject else value.copy()
+        if isinstance(value, (list, tuple, dict)):
+            return copy.deepcopy(value)
         return value
 
     def _invalidate_cache(self):
